@@ -759,6 +759,28 @@ func forkVM(p *packages.Package) {
 		}
 	}
 	facts["forkRunCustomGuards"] = guards
+	// GetCustomPrecompiledContractsAddress: how the list handed to PrepareAccessList is built
+	var build []string
+	for _, f := range p.Syntax {
+		for _, d := range f.Decls {
+			fd, ok := d.(*ast.FuncDecl)
+			if !ok || fd.Name.Name != "GetCustomPrecompiledContractsAddress" {
+				continue
+			}
+			ast.Inspect(fd, func(n ast.Node) bool {
+				if ce, ok := n.(*ast.CallExpr); ok {
+					switch exprString(ce.Fun) {
+					case "make":
+						build = append(build, fmt.Sprintf("make/%d", len(ce.Args)))
+					case "append":
+						build = append(build, "append")
+					}
+				}
+				return true
+			})
+		}
+	}
+	facts["forkCustomPrecompileAddrBuild"] = build
 }
 
 func forkCore(p *packages.Package) {
